@@ -21,14 +21,25 @@ AUDIT_FILES = ["ScoresVerif/Model/DieboldMariano.lean", "ScoresVerif/Spec/Diebol
 LEVEL = "proof"
 TRUSTED = ["sqrt is uninterpreted in the rational model (harness applies libm sqrt to the exact V_hat and factor)",
            "np.fft (acovf) is not modelled: acovf is compared with the direct biased estimator at every lag",
-           "scipy.optimize.least_squares (HG fit) and scipy.stats.norm/t are not modelled: HG is checked through relations "
-           "between implementation runs only; cdf/quantiles are recomputed with independent formulas (erfc, stdlib inv_cdf, "
-           "regularised incomplete beta + bisection)"]
+           "scipy.optimize.least_squares (HG fit) and scipy.stats.norm/t are not modelled: the HG statistic is checked GIVEN the "
+           "parameters the implementation's own least_squares call returned (read by wrapping that name for the duration of the call; "
+           "density over all lags evaluated by the Lean Spec, exp(-3/theta) and sqrt by libm), against an independent scipy fit on the "
+           "exact autocovariances (oracle level, rtol 2e-3), and through relations between implementation runs; cdf/quantiles are "
+           "recomputed with independent formulas (erfc, stdlib inv_cdf, regularised incomplete beta + bisection)",
+           "storage dtypes: the harness only ever hands the library arrays whose stored values ARE the case's values (fits(): "
+           "integers within the dtype's range, float32-representable dyadics); relations whose transformed values do not exist in the "
+           "dtype (negation for uint8 / bool, rescaling out of range or to non-integers) are skipped, not wrapped"]
 ASSUMPTIONS = ["series values are small dyadic rationals times a per-series power of two 2^e, -30 <= e <= 30 (exact in float64, so the "
                "exact-rational model applies at every magnitude), or NaN; quotients compared to 1e-9; mean and interval limits are "
                "compared after exact division by 2^e, i.e. relative to the magnitude of the series",
                "exact V_hat = 0 on a non-constant series is decided by float rounding in the implementation: skipped and tagged",
-               "float rounding is not modelled"]
+               "float rounding is not modelled; float32 storage (the library then computes in float32) is compared at 1e-5 x the "
+               "cancellation amplification and skipped beyond 1e-2; HG on float32 storage is not compared with its float64 run "
+               "(scipy's stopping point moves by percents under 1e-7 perturbations of large-magnitude autocovariances): tagged",
+               "the independent HG fit is compared for non-constant, non-float32 series of length >= 4; the reference fit is made on the "
+               "series divided exactly by its power-of-two magnitude (the least-squares optimum is scale-equivariant, the statistic "
+               "invariant); a disagreement on a series of magnitude 2^e, e != 0, is the reproduced defect HG-FIT-SCALE (notes/C19.md) and "
+               "carries tags defect=HG-FIT-SCALE, off_unit_magnitude=true"]
 MANIFEST = dict(
     level="proof",
     text="Kernel-checked Lean theorems about a hand model of the HLN route of diebold_mariano_impl.py (NaN removal, mean, "
@@ -46,11 +57,22 @@ MANIFEST = dict(
          "estimator at every lag, _next_regular exhaustively up to 1e4/1e5). The oracle checks the real diebold_mariano against the "
          "Spec, sign symmetry and series independence for both methods, scale invariance (HLN; factors down to 2^-30 and up to 2^30, "
          "series of magnitude 2^-30..2^30 throughout, mean / limits compared relative to that magnitude), confidence_gt_0 and the interval "
-         "against independent cdf/quantile implementations, and _next_regular against the true next 5-smooth number.",
+         "against independent cdf/quantile implementations, and _next_regular against the true next 5-smooth number. "
+         "Storage dtypes (int64 / int32 / int16 / int8 / uint8 / bool integer-valued differences incl. 0/1 streams, float32 dyadics; h >= 2 "
+         "favoured, non-integer means): the expected HLN statistic is the Spec on the VALUES, every relation is repeated, and the same "
+         "values held as float64 must give the same outputs (both methods). HG given the parameters (Spec.hgDensity, theorems: positive "
+         "for sigma^2 > 0 and rho >= 0; summing fewer lags is strictly smaller for rho > 0; geometric closed form; sigma^2-scaling; "
+         "statistic^2 invariant under negation): the real statistic equals mean / sqrt(f0 / n) with f0 = sigma^2 (1 + 2 sum_{k=1}^{n-1} "
+         "rho^k) over ALL lags for the implementation's own fitted (sigma, theta) to 1e-9, and agrees with an independent least-squares "
+         "fit on the exact autocovariances at the documented lags to 2e-3 - on short series and on AR(1) phi = 0.5 / 0.9 / 0.99, random "
+         "walks, linear trend + noise and fractionally integrated (d = 0.4) series of length 8..60 (correspondence / oracle level).",
     note="Trusted: Lean kernel; propext/Classical.choice/Quot.sound; the hand model and harness; libm sqrt (uninterpreted in the "
-         "rational model). NOT modelled / not proved: the HG method (scipy least_squares fit of the exponential covariance model) — "
-         "only sign symmetry, series independence and the cdf / CI algebra given its returned statistic are checked as relations "
-         "between implementation runs; np.fft (acovf is compared numerically with the direct biased estimator); scipy.stats norm/t "
+         "rational model). NOT modelled / not proved: the HG least-squares FIT (scipy least_squares on the exponential covariance model) — "
+         "the statistic is proved / computed only GIVEN the fitted parameters (read from the implementation's own least_squares call), "
+         "the fit is compared with an independent scipy fit (same algorithm, exact autocovariances, loose tolerance: an oracle, not a "
+         "proof), plus sign symmetry, series independence and the cdf / CI algebra as relations between implementation runs; finding "
+         "HG-FIT-SCALE (notes/C19.md): off unit magnitude the implementation's fit is not the least-squares fit (stops early below "
+         "~1e-2, returns the start (1, 1) unchanged above ~1e4), so the HG statistic is wrong by factors there; np.fft (acovf is compared numerically with the direct biased estimator); scipy.stats norm/t "
          "cdf and ppf (recomputed with erfc, stdlib inv_cdf, incomplete beta + bisection). Known finding F6 (notes/C19.md): a series "
          "with exactly zero mean has statistic 0 but NaN limits. Exact V_hat = 0 on a non-constant series is rounding-decided in the "
          "implementation and skipped (tagged). Error handling of malformed h / dims belongs to C20.",
@@ -60,7 +82,12 @@ RULE = ("1-4 series per call (rows of a 2-D DataArray, either dim order, fresh s
         "exact zero-mean / constant / all-zero series forced regularly, about half of the series multiplied by 2^e with e in [-30, 30] "
         "(extremes and |e| >= 14 favoured: V_hat from ~1e-18 to ~1e+20), NaN per slot, h uniform in [1, valid length); "
         "rescaling relation with factors 2, 3, 1/8, 2^-30, 2^30; acovf series likewise scaled; "
-        "both methods, both reference distributions, 6 confidence levels; distinct = distinct canonical call; "
+        "both methods, both reference distributions, 6 confidence levels; "
+        "storage-dtype stream: integer-valued series (0/1, -1/0/1, ties, constant, zero-mean, slow integer walks) as int64 / int32 / int16 / "
+        "int8 / uint8 / bool (int64 / int32 also times 2^e up to 2^30 / 2^20), float32 dyadics times 2^e (|e| <= 8) with NaN, length 3-40, "
+        "h >= 2 in 70 % of the series, every h on one int64 and one int8 series; long-memory stream (HG): AR(1) phi 0.5 / 0.9 / 0.99, random "
+        "walk, trend + noise, fractional d = 0.4, white; length 8-60, values rounded to 1/8, 20 % with two NaNs, h mostly 1-4; "
+        "distinct = distinct canonical call; "
         "non-trivial = some series has a finite statistic")
 
 NAN = float("nan")
@@ -111,11 +138,53 @@ def cdf_for(dist, x, n):
 
 
 # ------------------------------------------------------------------------------------------------ cases
-def mk_case(rows, hs, method="HLN", dist="normal", cl=0.95, layout="ts-first", exps=None):
+def mk_case(rows, hs, method="HLN", dist="normal", cl=0.95, layout="ts-first", exps=None, dtype="float64", kinds=None):
     """exps[i] = e: row i has already been multiplied by 2^e (exact); used only to compare mean / interval relative to the
-    magnitude of the series"""
-    return {"rows": [[float(x) for x in r] for r in rows], "h": [int(h) for h in hs], "method": method, "dist": dist,
-            "cl": float(cl), "layout": layout, "exp": [int(e) for e in (exps if exps is not None else [0] * len(rows))]}
+    magnitude of the series.  dtype = storage dtype of the DataArray handed to the library (the VALUES are what `rows` says;
+    every value must be exactly representable in that dtype, see fits()).  kinds = how each row was generated (tag only)."""
+    c = {"rows": [[float(x) for x in r] for r in rows], "h": [int(h) for h in hs], "method": method, "dist": dist,
+         "cl": float(cl), "layout": layout, "exp": [int(e) for e in (exps if exps is not None else [0] * len(rows))]}
+    if dtype != "float64":
+        c["dtype"] = dtype
+    if kinds is not None:
+        c["kinds"] = list(kinds)
+    return c
+
+
+def case_dtype(case):
+    return case.get("dtype", "float64")
+
+
+INT_DTYPES = ("int64", "int32", "int16", "int8", "uint8", "bool")
+DTYPES = INT_DTYPES + ("float32",)
+
+
+def fits(rows, dtype):
+    """every value of `rows` is exactly representable in `dtype` (so that the array handed to the library holds exactly these
+    VALUES: nothing the harness does may wrap, truncate or round)"""
+    if dtype == "float64":
+        return True
+    for row in rows:
+        for x in row:
+            if math.isnan(x):
+                if dtype != "float32":
+                    return False
+                continue
+            if dtype == "float32":
+                with np.errstate(all="ignore"):
+                    if not (math.isfinite(x) and float(np.float32(x)) == x):
+                        return False
+                continue
+            if not math.isfinite(x) or x != int(x) or abs(x) > 2.0 ** 53:
+                return False
+            if dtype == "bool":
+                if x not in (0.0, 1.0):
+                    return False
+            else:
+                info = np.iinfo(dtype)
+                if not info.min <= int(x) <= info.max:
+                    return False
+    return True
 
 
 SCALE_EXPS = [-30, -30, -29, -27, -24, -20, -17, -14, -13, -10, -7, -3, 3, 8, 14, 21, 27, 30, 30]
@@ -184,9 +253,252 @@ def gen_case(rng, method=None, nmax=14):
                    rng.choice(["ts-first", "ts-second"]), exps)
 
 
-def run_impl(case):
+# ------------------------------------------------------------------------------------------------ storage-dtype cases
+def gen_int_series(rng, n, lo, hi):
+    """integer-valued score differences in [lo, hi] (differences of counts / categorical scores): 0/1 and -1/0/1 streams,
+    ties, constant, all-zero, exact zero mean; the mean is a non-integer for nearly every draw"""
+    kind = rng.random()
+    if kind < 0.06:
+        s = [0] * n
+    elif kind < 0.12:
+        s = [rng.randint(lo, hi)] * n
+    elif kind < 0.22 and lo < 0:
+        half = [rng.randint(1, min(hi, -lo)) for _ in range(n // 2)]
+        s = half + [-x for x in half] + ([0] if n % 2 else [])
+        rng.shuffle(s)
+    elif kind < 0.40:
+        p1 = rng.choice([0.2, 0.5, 0.8])
+        s = [1 if rng.random() < p1 else 0 for _ in range(n)]
+    elif kind < 0.52 and lo < 0:
+        s = [rng.choice([-1, 0, 0, 1, 1]) for _ in range(n)]
+    elif kind < 0.62:                                    # persistent counts: a slow integer random walk, clipped
+        x = rng.randint(lo // 2, hi // 2)
+        s = []
+        for _ in range(n):
+            x = min(hi, max(lo, x + rng.choice([-1, 0, 0, 1])))
+            s.append(x)
+    else:
+        pool = [rng.randint(lo, hi) for _ in range(rng.randint(2, 5))]
+        s = [rng.choice(pool) if rng.random() < 0.5 else rng.randint(lo, hi) for _ in range(n)]
+    return [float(x) for x in s]
+
+
+DTYPE_RANGE = {"int64": (-16, 16), "int32": (-16, 16), "int16": (-16, 16), "int8": (-12, 12), "uint8": (0, 20), "bool": (0, 1)}
+DTYPE_EXPS = {"int64": [0, 0, 0, 3, 10, 20, 27, 30], "int32": [0, 0, 0, 3, 8, 14, 20], "int16": [0, 0, 3, 8], "int8": [0], "uint8": [0],
+              "bool": [0], "float32": [0, 0, 0, -8, -3, 3, 8]}
+
+
+def gen_dtype_case(rng, method=None, dtype=None):
+    """the VALUES are small integers (times 2^e where the dtype has room) resp. dyadics for float32; h >= 2 favoured"""
+    dtype = dtype or rng.choice(["int64", "int64", "int32", "int32", "int8", "int8", "int16", "uint8", "bool", "float32", "float32"])
+    k = rng.choice([1, 1, 2, 3])
+    n = rng.choice([3, 4, 5, 6, 7, 8, 10, 12, 14, 25, 40])
+    rows, hs, exps = [], [], []
+    for _ in range(k):
+        e = rng.choice(DTYPE_EXPS[dtype])
+        valid = n
+        if dtype == "float32":
+            s = gen_series(rng, n)
+            pn = rng.choice([0, 0, 0.2])
+            for i in range(n):
+                if rng.random() < pn and valid > 3:
+                    s[i] = NAN
+                    valid -= 1
+        else:
+            lo, hi = DTYPE_RANGE[dtype]
+            s = gen_int_series(rng, n, lo, hi)
+        rows.append([x * 2.0 ** e for x in s])
+        exps.append(e)
+        hs.append(rng.randint(2, valid - 1) if rng.random() < 0.7 else rng.randint(1, valid - 1))
+    return mk_case(rows, hs, method or rng.choice(["HLN", "HLN", "HG"]), rng.choice(["normal", "t"]), rng.choice(CLS),
+                   rng.choice(["ts-first", "ts-second"]), exps, dtype=dtype)
+
+
+# ------------------------------------------------------------------------------------------------ long-memory cases (HG)
+LONG_KINDS = ["ar1-0.9", "ar1-0.9", "ar1-0.99", "ar1-0.5", "random-walk", "random-walk", "trend+noise", "trend+noise",
+              "frac-d0.4", "white"]
+
+
+def gen_long_series(rng, n, kind):
+    """strongly autocorrelated / trending / long-memory series from the seeded RNG, rounded to multiples of 1/8 (dyadic)"""
+    if kind.startswith("ar1-"):
+        phi = float(kind[4:])
+        x = [rng.gauss(0, 2)]
+        for _ in range(n - 1):
+            x.append(phi * x[-1] + rng.gauss(0, 2))
+        off = rng.randint(-8, 8) / 4
+        s = [round((v + off) * 8) / 8 for v in x]
+    elif kind == "random-walk":
+        s = [rng.randint(-16, 16) / 4]
+        for _ in range(n - 1):
+            s.append(s[-1] + rng.randint(-8, 8) / 4)
+    elif kind == "trend+noise":
+        a = rng.randint(-16, 16) / 4
+        b = rng.choice([-1, 1]) * rng.randint(1, 8) / 8
+        s = [a + b * t + rng.randint(-4, 4) / 4 for t in range(n)]
+    elif kind == "frac-d0.4":                            # fractionally integrated noise, d = 0.4 (hyperbolic autocorrelation)
+        psi = [1.0]
+        for j in range(1, n + 20):
+            psi.append(psi[-1] * (j - 1 + 0.4) / j)
+        e = [rng.gauss(0, 2) for _ in range(n + 20)]
+        off = rng.randint(-8, 8) / 4
+        s = [round((sum(psi[j] * e[t + 20 - j] for j in range(t + 21)) + off) * 8) / 8 for t in range(n)]
+    else:
+        s = [rng.randint(-16, 16) / 4 for _ in range(n)]
+    if len(set(s)) == 1:
+        s[0] += 0.5
+    return s
+
+
+def gen_long_case(rng, dtype=None):
+    k = rng.choice([1, 1, 2])
+    n = rng.choice([8, 12, 16, 20, 30, 40, 60])
+    rows, hs, kinds = [], [], []
+    for _ in range(k):
+        kind = rng.choice(LONG_KINDS)
+        s = gen_long_series(rng, n, kind)
+        valid = n
+        if rng.random() < 0.2:
+            for i in rng.sample(range(n), 2):
+                s[i] = NAN
+                valid -= 1
+        rows.append(s)
+        kinds.append(kind)
+        hs.append(rng.randint(1, valid - 1) if rng.random() < 0.25 else rng.randint(1, min(4, valid - 1)))
+    return mk_case(rows, hs, "HG", rng.choice(["normal", "t"]), rng.choice(CLS), rng.choice(["ts-first", "ts-second"]), kinds=kinds)
+
+
+# ------------------------------------------------------------------------------------------------ the HG statistic from its definition
+def hg_stat_from_params(v, sigma, theta):
+    """Hering-Genton statistic of the (NaN-free) series v for GIVEN parameters of the exponential covariance model
+    C(k) = sigma^2 exp(-3k/theta): mean / sqrt(f0 / n) with f0 = C(0) + 2 sum_{k=1}^{n-1} C(k) over ALL lags of the series.
+    The mean is exact (rational), exp/sqrt are libm; the lag sum is an explicit fsum (no numpy)."""
+    n = len(v)
+    mean = float(sum(Fraction(x) for x in v) / n)
+    if theta > 0:
+        tail = math.fsum(math.exp(-3.0 * k / theta) for k in range(1, n))
+    else:
+        tail = 0.0
+    dens = sigma * sigma * (1.0 + 2.0 * tail)
+    if not dens > 0:
+        return NAN if (mean == 0 or math.isnan(dens)) else math.copysign(math.inf, mean)
+    return mean / math.sqrt(dens / n)
+
+
+def hg_rho(theta):
+    """rho = exp(-3/theta) (libm); the Lean Spec takes rho as an exact rational and forms the powers rho^k itself"""
+    return math.exp(-3.0 / theta) if theta > 0 else 0.0
+
+
+def hg_ops(case, hgp):
+    """driver ops evaluating Spec.hgDensity for every series with captured parameters; returns (ops, series indices)"""
+    ops, idx = [], []
+    for i, par in enumerate(hgp or []):
+        if par is not None and all(math.isfinite(x) for x in par):
+            ops.append({"op": "c19.hg", "args": {"series": [core.fl_str(x) for x in case["rows"][i]], "sigma": core.fl_str(par[0]),
+                                                 "rho": core.fl_str(hg_rho(par[1]))}})
+            idx.append(i)
+    return ops, idx
+
+
+def hg_stat_from_spec(m):
+    """statistic from the exact Spec values (mean, density over all lags, length): libm sqrt on the exact quotient.
+    The exact density sigma^2 (1 + 2 sum rho^k) has a denominator of up to (denominator of rho)^(n-1): thousands of digits."""
+    import sys
+    if hasattr(sys, "set_int_max_str_digits") and sys.get_int_max_str_digits() != 0:
+        sys.set_int_max_str_digits(0)
+    mean, dens, n = Fraction(m["mean"]), Fraction(m["density"]), m["len"]
+    if dens <= 0:
+        return NAN if mean == 0 else math.copysign(math.inf, mean)
+    return float(mean) / math.sqrt(float(dens / n))
+
+
+def hg_spec_results(case, hgp):
+    """per series: the Lean Spec evaluation for the captured parameters (None where there are none)"""
+    ops, idx = hg_ops(case, hgp)
+    out = [None] * len(case["rows"])
+    if ops:
+        for i, m in zip(idx, core.run_driver("C19", ops)):
+            out[i] = m
+    return out
+
+
+def hg_independent_fit(acov_exact, n, h):
+    """least-squares fit of sigma^2 exp(-3k/theta) to the EXACT biased autocovariances (Lean Spec, rationals) at the lags
+    0 .. max(floor((n-1)/2), h) - 1, bounds sigma, theta >= 0, start (1, 1) as documented for the implementation"""
+    from scipy.optimize import least_squares
+    nl = max((n - 1) // 2, h)
+    acv = np.array([float(Fraction(x)) for x in acov_exact[:nl]], dtype=float)      # Fraction(Fraction) is the identity
+    lags = np.arange(nl, dtype=float)
+
+    def resid(p):
+        return p[0] * p[0] * np.exp(-3.0 * lags / p[1]) - acv
+    with warnings.catch_warnings():
+        warnings.simplefilter("ignore")
+        with np.errstate(all="ignore"):
+            f = least_squares(resid, [1.0, 1.0], bounds=(0, np.inf))
+    return float(f.x[0]), float(f.x[1])
+
+
+def run_impl(case, hg_out=None):
+    """one call of the real diebold_mariano.  hg_out (a list) receives, per series, the (sigma, theta) the implementation's own
+    scipy least_squares call returned (None for a series without a fit) — obtained by wrapping the `least_squares` name of the
+    implementation module for the duration of the call (transparent: same arguments, same result object)."""
     from scores.stats.statistical_tests import diebold_mariano
     rows = np.array(case["rows"], dtype=float)
+    dt = case_dtype(case)
+    if dt != "float64":
+        if not fits(case["rows"], dt):
+            return {"err": "HarnessError", "msg": "values not representable in " + dt}
+        rows = rows.astype(dt)
+    if hg_out is not None:
+        return _run_capturing(case, hg_out)
+    return _run(case, rows)
+
+
+def _run_capturing(case, hg_out):
+    import importlib
+    mod = importlib.import_module("scores.stats.statistical_tests.diebold_mariano_impl")
+    orig = getattr(mod, "least_squares", None)
+    got = []
+    if orig is not None:
+        def wrapped(*a, **kw):
+            res = orig(*a, **kw)
+            try:
+                # the autocovariances handed to the fit may be in the series' own units or relative to the variance
+                # (acv[0] == 1): keep acv[0] so that the fitted model can be expressed in the units of the series
+                fit_args = kw.get("args") or (a[3] if len(a) > 3 else ())
+                acv0 = float(np.asarray(fit_args[1], dtype=float)[0]) if len(fit_args) > 1 else float("nan")
+                got.append([float(res.x[0]), float(res.x[1]), acv0])
+            except Exception:  # noqa: BLE001
+                got.append(None)
+            return res
+        mod.least_squares = wrapped
+    try:
+        r = run_impl(case)
+    finally:
+        if orig is not None:
+            mod.least_squares = orig
+    # one fit per series that is not all-zero (in series order); anything else: no attribution possible
+    need = [any(x != 0 for x in row if not math.isnan(x)) for row in case["rows"]]
+    if case["method"] == "HG" and "err" not in r and len(got) == sum(need) and all(g is not None for g in got):
+        it = iter(got)
+        for nz, row in zip(need, case["rows"]):
+            if not nz:
+                hg_out.append(None)
+                continue
+            sigma, theta, acv0 = next(it)
+            v = [Fraction(x) for x in row if not math.isnan(x)]
+            m = sum(v) / len(v)
+            g0 = float(sum((x - m) ** 2 for x in v) / len(v))      # biased autocovariance at lag 0 of the VALUES
+            # fitted model in the units of the series: C(k) = (g0 / acv0) sigma^2 exp(-3k/theta)
+            unit = math.sqrt(g0 / acv0) if (acv0 == acv0 and acv0 > 0 and g0 > 0) else 1.0
+            hg_out.append([sigma * unit, theta])
+    return r
+
+
+def _run(case, rows):
+    from scores.stats.statistical_tests import diebold_mariano
     ts = "".join(["se", "ries"])
     ot = "".join(["ti", "me"])
     hc = "".join(["h", "_"])
@@ -238,6 +550,11 @@ def tag_case(ctx, case, r=None):
     ctx.tag("method:" + case["method"])
     ctx.tag("dist:" + case["dist"])
     ctx.tag("series:%d" % len(case["rows"]))
+    ctx.tag("dtype:" + case_dtype(case))
+    for kd in case.get("kinds", []):
+        ctx.tag("hg-series:" + kd)
+    if any(h >= 2 for h in case["h"]):
+        ctx.tag("h>=2")
     for i, row in enumerate(case["rows"]):
         v = [x for x in row if not math.isnan(x)]
         e = (case.get("exp") or [0] * len(case["rows"]))[i]
@@ -277,6 +594,8 @@ def acovf_differs(got, exact, e):
 def correspondence(ctx):
     rng = ctx.rng
     cases = [F6_WITNESS] + [gen_case(rng, "HLN", nmax=rng.choice([14, 25, 40])) for _ in range(ctx.n(400, 6000))]
+    # the model is a function of the VALUES: integer-typed storage (exact) goes through the same comparison
+    cases += [gen_dtype_case(rng, "HLN", rng.choice(INT_DTYPES)) for _ in range(ctx.n(80, 1200))]
     ops, idx = [], []
     for ci, c in enumerate(cases):
         o = series_ops(c, "c19.hln")
@@ -369,14 +688,43 @@ def smooth5(n):
     return n == 1
 
 
-def check_property(case, r, specs, rerun):
-    """every clause of C19 on one call; returns list of (site, signature, observed, expected, tags)"""
+def rel_close(a, b, rtol):
+    """truly relative comparison of two floats (NaN = NaN, inf = inf of the same sign)"""
+    a, b = float(a), float(b)
+    if math.isnan(a) or math.isnan(b):
+        return math.isnan(a) and math.isnan(b)
+    if math.isinf(a) or math.isinf(b):
+        return a == b
+    return abs(a - b) <= rtol * max(abs(a), abs(b))
+
+
+def f32_rtol(gamma0, vhat, n, h):
+    """float32 storage: the library does the HLN arithmetic in float32 (eps = 6e-8), same cancellation amplification"""
+    num = abs(float(vhat)) * n * n
+    amp = 0.0 if num == 0 else (2 * h - 1) * float(gamma0) / num
+    return 1e-5 * (1.0 + amp)
+
+
+HG_FIT_RTOL = 2e-3       # independent re-fit vs the implementation's fit: scipy's trf stops at ftol = 1e-8 on the cost; the
+#                          statistics of two fits on autocovariances differing by 1e-16 (FFT vs exact) agree to 1e-7 typically,
+#                          5e-5 at worst over 8 000 measured series (heavy tail: flat cost valleys) - hence the margin
+
+
+def check_property(case, r, specs, rerun, hgp=None, hgl=None):
+    """every clause of C19 on one call; returns list of (site, signature, observed, expected, tags).
+    hgp: per series the (sigma, theta) captured from the implementation's own fit during the run that produced r;
+    hgl: per series the Lean Spec evaluation (c19.hg) for those parameters (absent: the same formula in Python, fsum)"""
     bad = []
     method, dist, cl = case["method"], case["dist"], case["cl"]
+    dt = case_dtype(case)
+    f32 = dt == "float32"
     tags0 = {"method": method, "dist": dist}
+    if dt != "float64":
+        tags0["dtype"] = dt
     if "err" in r:
         return [("diebold_mariano", "exception", r["err"] + ": " + r["msg"], "a Dataset", tags0)]
     k = len(case["rows"])
+    rts = []                                  # per series: relative tolerance of the statistic (None = rounding-decided, skip)
     for i, (row, h) in enumerate(zip(case["rows"], case["h"])):
         tags = dict(tags0, series=i)
         v = [x for x in row if not math.isnan(x)]
@@ -387,19 +735,56 @@ def check_property(case, r, specs, rerun):
         # counts and mean
         if int(r["timeseries_len"][i]) != n:
             bad.append(("diebold_mariano", "timeseries_len-wrong", r["timeseries_len"][i], n, tags))
-        if not core.close(r["mean"][i] / sc, mean_exact):
+        if not core.close(r["mean"][i] / sc, mean_exact, rtol=1e-6 if f32 else 1e-9):
             bad.append(("diebold_mariano", "mean-wrong", r["mean"][i], float(mean_exact * Fraction(sc)), tags))
         allzero = all(x == 0 for x in v)
         if allzero and not math.isnan(st):
             bad.append(("diebold_mariano", "all-zero-series-not-nan", st, "nan", tags))
-        # the published HLN estimator
-        if method == "HLN" and specs is not None and not allzero:
+        rt = 1e-9
+        if specs is not None and not allzero:
             sp = specs[i]
             vh = Fraction(sp["vhat"])
+            g0 = Fraction(sp["acov"][0]) * n
+            rt = f32_rtol(g0, vh, n, h) if f32 else stat_rtol(g0, vh, n, h)
+            if rounding_sensitive(row, vh) or (f32 and rt > 1e-2):
+                rt = None
+        elif f32:
+            rt = 1e-5
+        rts.append(rt if method == "HLN" else (1e-3 if f32 else 1e-9))
+        # the published HLN estimator, on the VALUES of the series (whatever dtype stores them)
+        if method == "HLN" and specs is not None and not allzero and rt is not None:
             exp = stat_from(Fraction(sp["mean"]), vh if vh > 0 else NAN, Fraction(sp["factor"]))
-            rt = stat_rtol(Fraction(sp["acov"][0]) * n, vh, n, h)
-            if not core.close_ff(st, exp, rtol=rt) and not rounding_sensitive(row, vh):
+            if not core.close_ff(st, exp, rtol=rt):
                 bad.append(("_hln_method_stat", "not-the-published-estimator", st, exp, tags))
+        # the Hering-Genton statistic from its definition
+        if method == "HG" and not allzero:
+            constant = len(set(v)) == 1
+            par = hgp[i] if hgp and i < len(hgp) else None
+            if par is not None:              # (A) given the implementation's own fitted (sigma, theta): all lags 0..n-1
+                lm = hgl[i] if hgl and i < len(hgl) else None
+                exp = hg_stat_from_spec(lm) if lm is not None else hg_stat_from_params(v, par[0], par[1])
+                if not rel_close(st, exp, 1e-5 if f32 else 1e-9):
+                    bad.append(("_hg_method_stat", "hg-statistic-not-the-fitted-model-over-all-lags", st, exp,
+                                dict(tags, sigma=par[0], theta=par[1], lags=n)))
+            if specs is not None and not constant and not f32 and n >= 4:
+                # (B) independent least-squares fit on the exact autocovariances of the VALUES at the documented fitting lags.
+                # The least-squares optimum is equivariant (series * c  =>  sigma * c, same theta) and the statistic invariant,
+                # so the reference fit is made on the series divided (exactly) by its power-of-two magnitude 2^e.
+                e = (case.get("exp") or [0] * k)[i]
+                q4 = Fraction(4) ** e
+                sg, th = hg_independent_fit([Fraction(x) / q4 for x in specs[i]["acov"]], n, h)
+                exp = hg_stat_from_params([x / sc for x in v], sg, th)
+                if not core.close_ff(st, exp, rtol=HG_FIT_RTOL, atol=1e-9):
+                    if e == 0:
+                        bad.append(("_hg_method_stat", "hg-statistic-differs-from-independent-fit", st, exp,
+                                    dict(tags, sigma=sg, theta=th, lags=n, impl_params=par)))
+                    else:
+                        # REAL DEFECT of the unchanged code (notes/C19.md, "HG fit does not converge off unit magnitude"): scipy's
+                        # fit from the fixed start (1, 1) stops early (absolute gtol) for small series and does not move at all
+                        # (finite-difference Jacobian cancels to 0) for large ones.  Tagged distinctively, never loosened.
+                        bad.append(("_hg_method_stat", "hg-fit-not-least-squares-off-unit-magnitude", st, exp,
+                                    dict(tags, defect="HG-FIT-SCALE", off_unit_magnitude=True, magnitude="2^%d" % e, sigma_unit=sg, theta=th,
+                                         lags=n, impl_params=par)))
         # confidence_gt_0 is the reference cdf at the statistic
         conf = r["confidence_gt_0"][i]
         expc = cdf_for(dist, st, n)
@@ -427,10 +812,27 @@ def check_property(case, r, specs, rerun):
                             break
     if rerun is None:
         return bad
+
+    def same_outputs(ra, j, rb, i, sc, rt, exact):
+        """outputs of series j of run ra vs series i of run rb (mean / limits relative to the magnitude sc)"""
+        if exact:
+            return all(core.close_ff(normed(ra, j, sc)[key], normed(rb, i, sc)[key], rtol=1e-12, atol=0) for key in rb)
+        if rt is None:
+            return True
+        a, b = normed(ra, j, sc), normed(rb, i, sc)
+        sa = max(1.0, abs(b["dm_test_stat"])) if math.isfinite(b["dm_test_stat"]) else 1.0
+        return (core.close_ff(a["mean"], b["mean"], rtol=1e-6) and a["timeseries_len"] == b["timeseries_len"]
+                and core.close_ff(a["dm_test_stat"], b["dm_test_stat"], rtol=10 * rt)
+                and core.close_ff(a["confidence_gt_0"], b["confidence_gt_0"], rtol=0, atol=10 * rt * sa + 1e-9)
+                and core.close_ff(a["ci_upper"], b["ci_upper"], rtol=1e-5 + 20 * rt * sa, atol=1e-9)
+                and core.close_ff(a["ci_lower"], b["ci_lower"], rtol=1e-5 + 20 * rt * sa, atol=1e-9))
+
     # sign symmetry (both methods): negating every series negates the statistic, complements the confidence
     neg = dict(case, rows=[[(-x if not math.isnan(x) else x) + 0.0 for x in row] for row in case["rows"]])
-    rn = rerun(neg)
-    if "err" in rn:
+    rn = rerun(neg) if fits(neg["rows"], dt) else None       # unsigned / bool storage cannot hold the negated VALUES: skipped
+    if rn is None:
+        pass
+    elif "err" in rn:
         bad.append(("diebold_mariano", "exception-on-negated-series", rn["err"], "a Dataset", tags0))
     else:
         for i in range(k):
@@ -453,6 +855,8 @@ def check_property(case, r, specs, rerun):
     if method == "HLN":
         for cfac in RESCALE_FACTORS:
             sc = dict(case, rows=[[x * cfac for x in row] for row in case["rows"]])
+            if not fits(sc["rows"], dt):          # the rescaled VALUES do not exist in this storage dtype: factor skipped
+                continue
             rs = rerun(sc)
             if "err" in rs:
                 bad.append(("diebold_mariano", "exception-on-rescaled-series", rs["err"], "a Dataset", tags0))
@@ -460,7 +864,12 @@ def check_property(case, r, specs, rerun):
             hit = False
             for i in range(k):
                 sp = specs[i] if specs else None
-                rt = 1e-9 if sp is None else 2 * stat_rtol(Fraction(sp["acov"][0]) * sp["len"], Fraction(sp["vhat"]), sp["len"], case["h"][i])
+                if f32:
+                    if rts[i] is None:
+                        continue
+                    rt = 4 * rts[i]
+                else:
+                    rt = 1e-9 if sp is None else 2 * stat_rtol(Fraction(sp["acov"][0]) * sp["len"], Fraction(sp["vhat"]), sp["len"], case["h"][i])
                 if not core.close_ff(rs["dm_test_stat"][i], r["dm_test_stat"][i], rtol=rt, atol=1e-12):
                     if sp is not None and rounding_sensitive(case["rows"][i], Fraction(sp["vhat"])):
                         continue
@@ -471,15 +880,25 @@ def check_property(case, r, specs, rerun):
             if hit:
                 break
     # each series is handled independently (alone, other layout)
-    if k > 1 or True:
+    for i in range(k):
+        alone = dict(case, rows=[case["rows"][i]], h=[case["h"][i]], exp=[(case.get("exp") or [0] * k)[i]],
+                     layout="ts-second" if case["layout"] == "ts-first" else "ts-first")
+        ra = rerun(alone)
+        sc = row_scale(case, i)
+        if "err" in ra or not same_outputs(ra, 0, r, i, sc, rts[i], exact=not f32):
+            bad.append(("diebold_mariano", "series-not-independent", {key: ra.get(key) for key in r} if "err" not in ra else ra["err"],
+                        {key: r[key][i] for key in r}, dict(tags0, series=i)))
+            break
+    # the storage dtype is immaterial: the same VALUES held as float64 give the same outputs
+    # (HG on float32 storage is not compared: the float32 autocovariances feed scipy's iterative fit, whose stopping point
+    #  moves by percents under 1e-7 perturbations on series of large magnitude — rounding-decided, tagged by the oracle)
+    if dt != "float64" and not (f32 and method == "HG"):
+        rf = rerun(dict(case, dtype="float64"))
         for i in range(k):
-            alone = dict(case, rows=[case["rows"][i]], h=[case["h"][i]], exp=[(case.get("exp") or [0] * k)[i]],
-                         layout="ts-second" if case["layout"] == "ts-first" else "ts-first")
-            ra = rerun(alone)
             sc = row_scale(case, i)
-            if "err" in ra or not all(core.close_ff(normed(ra, 0, sc)[key], normed(r, i, sc)[key], rtol=1e-12, atol=0) for key in r):
-                bad.append(("diebold_mariano", "series-not-independent", {key: ra.get(key) for key in r} if "err" not in ra else ra["err"],
-                            {key: r[key][i] for key in r}, dict(tags0, series=i)))
+            if "err" in rf or not same_outputs(r, i, rf, i, sc, rts[i], exact=not f32):
+                bad.append(("diebold_mariano", "outputs-depend-on-storage-dtype", {key: r[key][i] for key in r},
+                            {key: rf[key][i] for key in r} if "err" not in rf else rf["err"], dict(tags0, series=i)))
                 break
     return bad
 
@@ -494,6 +913,15 @@ def all_h_cases(rng, n):
     return [mk_case([s], [h], m, d, 0.9, exps=[e]) for h in range(1, n) for m, d in (("HLN", "normal"), ("HG", "t"))]
 
 
+DTYPE_WITNESSES = [
+    mk_case([[3, 1, 4, 1, 5, 9, 2, 6, 5, 3, 5, 9], [-2, 0, 1, -3, 2, 2, -1, 0, 4, -1, 1, 0]], [3, 2], "HLN", "normal", 0.9, dtype="int64"),
+    mk_case([[1, 0, 0, 2, 1, 0, 3, 1, 0, 0, 1, 2], [5, -4, 3, 2, -1, 0, 2, 1, -3, 4, 1, 1]], [4, 2], "HLN", "t", 0.9, dtype="int32"),
+    mk_case([[1, 0, 0, 1, 1, 0, 1, 1, 0, 0, 1, 1]], [2], "HLN", "normal", 0.95, dtype="bool"),
+    mk_case([[1, 0, 0, 1, 1, 0, 1, 1, 0, 0, 1, 1]], [2], "HG", "normal", 0.95, dtype="int8"),
+    mk_case([[0.5, 0.25, 1.5, 0.5, 2, 0.75, 0.5, 1]], [3], "HLN", "normal", 0.95, dtype="float32"),
+]
+
+
 def oracle(ctx, boost):
     rng = ctx.rng
     mult = 5 if boost else 1
@@ -503,18 +931,43 @@ def oracle(ctx, boost):
     cases += [gen_case(rng, "HG") for _ in range(ctx.n(70, 1200) * (2 if boost else 1))]
     for n in ((5, 8) if not ctx.thorough else (4, 6, 9, 13)):          # every h < length
         cases += all_h_cases(rng, n)
+    # storage dtypes: integer-valued score differences held as int64 / int32 / int16 / int8 / uint8 / bool, dyadics as float32
+    cases += DTYPE_WITNESSES
+    cases += [gen_dtype_case(rng) for _ in range(ctx.n(130, 2000) * (2 if boost else 1))]
+    for dt in ("int64", "int8"):                                          # every h < length on an integer-typed series
+        lo, hi = DTYPE_RANGE[dt]
+        n = 7 if not ctx.thorough else 11
+        s = gen_int_series(rng, n, lo, hi)
+        cases += [mk_case([s], [h], m, "normal", 0.9, dtype=dt) for h in range(1, n) for m in ("HLN", "HG")]
+    # strongly autocorrelated / trending / long-memory series (HG definition over all lags)
+    cases += [gen_long_case(rng) for _ in range(ctx.n(90, 1500) * (2 if boost else 1))]
     ops = []
     for c in cases:
         ops += series_ops(c, "c19.spec")
     specs = core.run_driver("C19", ops)
     pos = 0
+    runs, ops2, where = [], [], []
     for c in cases:
         sp = specs[pos:pos + len(c["rows"])]
         pos += len(c["rows"])
-        r = run_impl(c)
+        hg = [] if c["method"] == "HG" else None
+        r = run_impl(c, hg)
+        runs.append((c, sp, r, hg, [None] * len(c["rows"])))
+        o, idx = hg_ops(c, hg)
+        ops2 += o
+        where += [(len(runs) - 1, i) for i in idx]
+    # the HG density over all lags for the implementation's own fitted parameters, evaluated by the Lean Spec (exact)
+    for (ri, i), m in zip(where, core.run_driver("C19", ops2) if ops2 else []):
+        runs[ri][4][i] = m
+    for c, sp, r, hg, hgl in runs:
         tag_case(ctx, c)
-        ctx.case("property-" + c["method"], describe(c), nontrivial="err" not in r and any(math.isfinite(x) for x in r["dm_test_stat"]))
-        report(ctx, "property-" + c["method"], c, check_property(c, r, sp, run_impl))
+        if hg is not None and "err" not in r:
+            ctx.tag("hg-params:" + ("captured" if hg else "not-captured"))
+            if case_dtype(c) == "float32":
+                ctx.tag("rounding-sensitive-skipped:hg-float32-vs-float64")
+        batch = "property-" + c["method"] + ("-dtype" if case_dtype(c) != "float64" else "-long-memory" if "kinds" in c else "")
+        ctx.case(batch, describe(c), nontrivial="err" not in r and any(math.isfinite(x) for x in r["dm_test_stat"]))
+        report(ctx, batch, c, check_property(c, r, sp, run_impl, hg, hgl))
     # acovf = direct biased estimator at every lag (Spec), FFT length is sound
     from scores.stats.statistical_tests.acovf import acovf, _next_regular
     series = [gen_scaled_series(rng, rng.choice([1, 2, 3, 5, 6, 8, 13, 32, 33, 50])) for _ in range(ctx.n(120, 1500) * mult)]
@@ -556,7 +1009,10 @@ def replay(ctx, payload):
         with np.errstate(all="ignore"):
             got = [float(x) for x in acovf(np.array(s, dtype=float))]
         return acovf_differs(got, m["acov"], int(case.get("exp", 0)))
+    case = dict(case, rows=[[float(x) for x in row] for row in case["rows"]])      # the stored form writes NaN as "nan"
     specs = core.run_driver("C19", series_ops(case, "c19.spec"))
-    bad = check_property(case, run_impl(case), specs, run_impl)
+    hg = [] if case["method"] == "HG" else None
+    r = run_impl(case, hg)
+    bad = check_property(case, r, specs, run_impl, hg, hg_spec_results(case, hg) if hg else None)
     sig = payload.get("signature")
     return any(b[1] == sig for b in bad) if sig else bool(bad)
